@@ -42,6 +42,8 @@ pub struct Globals {
     pub shl_limbs_ok: bool,
     /// lib.rs has `pub use self::parse::parse_float;` (rule 27)
     pub export_parse_float: bool,
+    /// rule 28: `struct StackVec { data: [MaybeUninit<Limb>; BIGINT_LIMBS], length: u16 }`
+    pub stackvec_ok: Result<(), String>,
 }
 
 impl Globals {
@@ -127,11 +129,22 @@ pub struct Var {
     pub konst: Option<u128>,
     /// `let xi = x.get_mut(i).unwrap()`: (`x`, the Gallina term of the index)
     pub alias: Option<(String, String)>,
+    /// raw mode: the variable is a raw pointer (a translation-time value)
+    pub ptr: Option<Ptr>,
+}
+
+/// raw mode (rule 29): what a raw pointer points to
+#[derive(Clone, Debug)]
+pub enum Ptr {
+    /// into the buffer of the `raw` variable `var` (Rust name), at cell `off` (a stable Gallina term)
+    Own { var: String, off: String },
+    /// to the start of the foreign slice variable `var` (Rust name)
+    Foreign { var: String },
 }
 
 impl Var {
     pub fn plain(ty: Ty, mutref: bool, cname: String) -> Var {
-        Var { ty, mutref, cname, flex: false, konst: None, alias: None }
+        Var { ty, mutref, cname, flex: false, konst: None, alias: None, ptr: None }
     }
 }
 
@@ -186,6 +199,8 @@ pub struct Cx<'a> {
     pub assign_log: Vec<String>,
     /// the function has the float type parameter `F` (the only accepted generic argument)
     pub float_param: bool,
+    /// rules 28-30: the cell-level translation of stackvec.rs / `shl_limbs`
+    pub raw_mode: bool,
 }
 
 pub fn vname(x: &str) -> String {
@@ -218,6 +233,7 @@ impl<'a> Cx<'a> {
             macro_depth: 0,
             assign_log: vec![],
             float_param: false,
+            raw_mode: false,
         }
     }
 
@@ -547,6 +563,9 @@ impl<'a> Cx<'a> {
             Some(i) if i.diverge.is_none() => &*i.expr,
             _ => return err(l.span(), "`let` without initialiser / with `else` is unsupported"),
         };
+        if let Some(()) = self.try_lower_ptr_local(pat, init)? {
+            return Ok(());
+        }
         if let Some(()) = self.try_lower_alias(pat, init)? {
             return Ok(());
         }
@@ -829,7 +848,8 @@ impl<'a> Cx<'a> {
                     (Ty::Num, "exponent") => format!("mkNumber {} (nmant {}) (many {})", v.t, vx, vx),
                     (Ty::Num, "mantissa") => format!("mkNumber (nexp {}) {} (many {})", vx, v.t, vx),
                     (Ty::Num, "many_digits") => format!("mkNumber (nexp {}) (nmant {}) {}", vx, vx, v.t),
-                    _ => return err(e.span(), "field assignment is only supported on ExtendedFloat and Number"),
+                    (Ty::Raw, "length") => format!("mkRaw (cells {}) {}", vx, v.t),
+                    _ => return err(e.span(), "field assignment is only supported on ExtendedFloat, Number and the length of a raw vector"),
                 };
                 self.push(S::Let(vx, format!("({})", t)));
                 self.mark_assigned(&x);
@@ -870,6 +890,7 @@ impl<'a> Cx<'a> {
             (Ty::Num, "exponent") => ("nexp", Ty::Int(IntTy::I32)),
             (Ty::Num, "mantissa") => ("nmant", Ty::Int(IntTy::U64)),
             (Ty::Num, "many_digits") => ("many", Ty::Bool),
+            (Ty::Raw, "length") => ("rlen", Ty::Int(IntTy::U16)),
             (Ty::Powers, "small") => ("BELL_SMALL", Ty::Table),
             (Ty::Powers, "large") => ("BELL_LARGE", Ty::Table),
             (Ty::Powers, "small_int") => ("BELL_SMALL_INT", Ty::Table),
@@ -891,6 +912,18 @@ impl<'a> Cx<'a> {
                 if let Some(ty) = self.tparams.get(&id.to_string()) {
                     return Ok(ty.clone());
                 }
+            }
+        }
+        if self.raw_mode {
+            // rule 28: `VecType` / `Self` = `raw`; `bigint::Limb` = u64
+            let text: String = quote::quote!(#t).to_string().chars().filter(|c| !c.is_whitespace()).collect();
+            match text.trim_start_matches('&').trim_start_matches("mut") {
+                "VecType" | "Self" | "StackVec" => return Ok(Ty::Raw),
+                "Option<Self>" => return Ok(Ty::Opt(Box::new(Ty::Raw))),
+                "bigint::Limb" => return Ok(Ty::Int(IntTy::U64)),
+                "Option<bigint::Limb>" => return Ok(Ty::Opt(Box::new(Ty::Int(IntTy::U64)))),
+                "[bigint::Limb]" => return Ok(Ty::Slice),
+                _ => {}
             }
         }
         let self_ty = match self.self_kind.as_deref() {
